@@ -92,6 +92,35 @@ pub fn uni_cfg() -> Cfg {
     }
 }
 
+/// scoped flag groups around / inside fancy constructs, mixed-case literals (C01 C02 C03 flag stages)
+pub fn flag_cfg() -> Cfg {
+    Cfg {
+        leaves: vec![Lit('a'), Lit('B'), Class(false, vec![('a', 'b')]), Any, Assert(A::StartText), Assert(A::EndText), Backref(1), Lit('\n')],
+        unary: vec![
+            |c| Some(Group(bx(c))),
+            |c| Some(Atomic(bx(c))),
+            |c| Some(Look(bx(c), false, false)),
+            |c| Some(Look(bx(c), false, true)),
+            |c| Some(Look(bx(c), true, false)),
+            |c| Some(Look(bx(c), true, true)),
+            |c| rep(c, 0, Some(1), Q::Greedy),
+            |c| rep(c, 0, None, Q::Greedy),
+            |c| rep(c, 1, None, Q::Lazy),
+            |c| rep(c, 1, Some(2), Q::Greedy),
+            |c| Some(Flags("i".into(), "".into(), bx(c))),
+            |c| Some(Flags("".into(), "i".into(), bx(c))),
+            |c| Some(Flags("s".into(), "".into(), bx(c))),
+            |c| Some(Flags("m".into(), "".into(), bx(c))),
+            |c| Some(Flags("U".into(), "".into(), bx(c))),
+            |c| Some(Flags("is".into(), "m".into(), bx(c))),
+        ],
+        ternary_concat: true,
+        cond: false,
+    }
+}
+
+pub const FLAG_SIGMA: [char; 5] = ['a', 'A', 'b', 'B', '\n'];
+
 /// literals that are regex meta-characters (quoting when a piece is re-serialised for the automata engine)
 pub fn meta_cfg() -> Cfg {
     Cfg {
@@ -534,14 +563,20 @@ pub struct RandCfg {
     pub max_nodes: usize,
     /// only the syntax shared with the regex crate (no look-around, atomic, back-reference, possessive)
     pub plain: bool,
+    /// scoped flag groups `(?i:..)`, `(?-i:..)`, `(?s:..)`, `(?m:..)`, `(?U:..)` and combinations
+    pub flags: bool,
 }
 
 impl RandCfg {
     pub fn core() -> Self {
-        RandCfg { lits: vec!['a', 'b', 'c', 'é'], cond: false, keepout: true, contg: false, open_refs: false, lookbehind: true, max_nodes: 14, plain: false }
+        RandCfg { lits: vec!['a', 'b', 'c', 'é'], cond: false, keepout: true, contg: false, open_refs: false, lookbehind: true, max_nodes: 14, plain: false, flags: false }
     }
     pub fn cond() -> Self {
         RandCfg { cond: true, ..Self::core() }
+    }
+    /// core grammar + scoped flag groups over mixed-case literals
+    pub fn flagged() -> Self {
+        RandCfg { lits: vec!['a', 'B', 'b', '\n'], flags: true, ..Self::core() }
     }
     pub fn wild() -> Self {
         RandCfg { cond: true, contg: true, open_refs: true, ..Self::core() }
@@ -627,8 +662,8 @@ impl<'c, 'a> RandGen<'c, 'a> {
         if budget <= 1 || self.nodes >= self.cfg.max_nodes || self.d.exhausted() {
             return self.leaf();
         }
-        let mut r = self.d.below(28);
-        if self.cfg.plain && r >= 21 {
+        let mut r = self.d.below(if self.cfg.flags { 32 } else { 28 });
+        if self.cfg.plain && (21..28).contains(&r) {
             r = 3 + (r - 21) * 2; // look-around / atomic / conditional slots become concat, alt, group, repeat
         }
         self.nodes += 1;
@@ -710,6 +745,12 @@ impl<'c, 'a> RandGen<'c, 'a> {
                     return GroupExists(g);
                 }
                 CondGroup(g, bx(y), bx(n))
+            }
+            28..=31 => {
+                const F: [(&str, &str); 8] = [("i", ""), ("", "i"), ("s", ""), ("m", ""), ("U", ""), ("is", "m"), ("i", "s"), ("mU", "i")];
+                let (on, off) = F[self.d.below(F.len())];
+                let c = self.node(budget - 1);
+                Flags(on.into(), off.into(), bx(c))
             }
             _ => {
                 if !self.cfg.cond {
